@@ -411,6 +411,10 @@ def nk2(ctx, R):
     b = prog.func("timestamp.TimestampArray.as_datetime64")
     va = _norm_ts_canon(Sym(prog, a, a.cls, inline=False).function_value())
     vb = _norm_ts_canon(Sym(prog, b, b.cls, inline=False).function_value())
+    if va[0] == "call" or vb[0] == "call":
+        # the arithmetic lives in a helper: look through it
+        va = _norm_ts_canon(Sym(prog, a, a.cls).function_value())
+        vb = _norm_ts_canon(Sym(prog, b, b.cls).function_value())
     if va[0] == "opaque" or vb[0] == "opaque":
         raise AnchorMissing("as_datetime64 return statements")
     R.check(va == vb, "timestamp.as_datetime64::scalar vs array", b.where(), "both compute %s" % show(alpha(va))[:140],
